@@ -178,8 +178,9 @@ def part_b_receive(job):
             if not in_len:
                 return n, f"at{gen} {name}: frame with bits {bits} flipped was delivered to the subscriber as {type(w.got[0][1]).__name__}"
         fed = 0
+        burst = 1
         delivered = False
-        while fed < 70000:
+        while fed < 70000 + 40 * len(probe):
             live = w.net.live()
             if not live:
                 w.loop.run_until(w.loop.time() + 2.5)
@@ -187,8 +188,9 @@ def part_b_receive(job):
                 if not live:
                     return n, f"at{gen} {name} bits {bits}: no connection re-established"
             g0 = len(w.got)
-            live[-1].peer_send(probe)
-            fed += len(probe)
+            live[-1].peer_send(probe * burst)
+            fed += len(probe) * burst
+            burst = min(burst * 4, 256)
             w.loop.settle()
             if len(w.got) > g0 and len(w.net.conns) > 1:
                 delivered = True
